@@ -399,6 +399,18 @@ def cmdAnalyze (fields : List String) : Except String String :=
           .ok s!"ok\t{diags}\t{syms}\t{";".intercalate hovers}\t{errorCount st.diags}"
   | _ => .error "analyze: expected 3 fields"
 
+
+def cmdShow (fields : List String) : Except String String :=
+  match fields with
+  | [text, r] => do
+      let t ← decStr text
+      let rg ← parseRange r
+      match showOnSource rg t.toList with
+      | .ok out => .ok s!"ok\t{encStr out}"
+      | .panic s => .ok s!"panic\t{encStr s}"
+      | .err _ => .ok "err"
+  | _ => .error "show: expected 2 fields"
+
 def dispatch (cmd : String) (fields : List String) : Except String String :=
   if cmd = "exec" then cmdExec fields
   else if cmd = "reconcile" then cmdReconcile fields
@@ -406,6 +418,7 @@ def dispatch (cmd : String) (fields : List String) : Except String String :=
   else if cmd = "portionlit" then cmdPortionLit fields
   else if cmd = "allot" then cmdAllot fields
   else if cmd = "analyze" then cmdAnalyze fields
+  else if cmd = "show" then cmdShow fields
   else .error s!"unknown command {cmd}"
 
 def handleLine (line : String) : String :=
